@@ -1,8 +1,129 @@
+(** C14 — Grid index-to-coordinate mapping is consistent for every layout.
+    Model: FV.Grid (grid_tools.py gen_points / gen_cells / order_map / gen_node_centers,
+    grid_base.py StructuredGrid, grid_spec.py RectilinearGrid incl. the data_shape/data_size memo,
+    to_unstructured).  This file contains only statements; proofs are in FVP.Grid_proofs.
+
+    Conventions: an n-d index is a [list nat]; [inb sh i] says that [i] is a valid index of an
+    array of shape [sh]; [flat c sh i] is the position of [i] after flattening in order C ([c = true])
+    or F; [wf_grid g] = one direction flag per axis and no empty axis.  All theorems hold for
+    arbitrary axis lengths and (index_coord, location_current) for any number of axes. *)
 From Coq Require Import List ZArith QArith Bool Arith Lia.
 From FV Require Import Base Grid.
 From FVP Require Import Grid_proofs.
 Import ListNotations.
 Open Scope nat_scope.
-Theorem C14_stub : prod [] = 1.
-Proof. exact prod_nil. Qed.
-Print Assumptions C14_stub.
+
+(** For every grid (any order, axes_reversed, axes_increase, data location) and every multi-index
+    [i] of the data shape: the coordinate read from the per-axis [data_axes] at [i] (put back into
+    xyz order) is the entry of the flattened [data_points] list at the position obtained by
+    flattening [i] in the grid's order. *)
+Theorem C14_index_coord :
+  forall (g : grid) (i : list nat),
+    wf_grid g -> inb (data_shape g) i ->
+    flat (g_c g) (data_shape g) i < length (data_points g) /\
+    nth (flat (g_c g) (data_shape g) i) (data_points g) [] = coord_at g i.
+Proof. exact index_coord. Qed.
+
+(** Cells ([dms] = axis lengths, each >= 1, at most three of them > 1; [c] = apparent point order).
+    The cell with cell multi-index [ci] sits at position [flat c (cshape_of dms) ci] of [cells];
+    its node list is exactly the list of the corner points [ci + off] (offsets [corners m] over the
+    non-degenerate axes, 0 on length-1 axes), each given by its position in the point list; there
+    are [cell_count] cells and every node id is below [point_count]. *)
+Theorem C14_cells_valid :
+  forall (dms : list nat) (c : bool),
+    Forall (fun d => 1 <= d) dms -> length (filter nondeg dms) <= 3 ->
+    length (gen_cells dms c) = prod (cshape_of dms) /\
+    Forall (Forall (fun p => p < prod dms)) (gen_cells dms c) /\
+    forall ci, inb (cshape_of dms) ci ->
+      nth (flat c (cshape_of dms) ci) (gen_cells dms c) [] =
+      map (fun off => flat c dms (addi ci (embed dms off))) (corners (length (filter nondeg dms))).
+Proof.
+  intros dms c Hd Hm. split; [apply gen_cells_length; exact Hd|].
+  split; [apply cells_in_range; assumption|]. intros ci Hci. apply cells_corners; assumption.
+Qed.
+
+(** [cell_centers] (computed from the cell axes) equals, coordinate by coordinate, the mean of the
+    points referenced by the cell ([node_centers] = gen_node_centers), for increasing and
+    decreasing axes, every order and axes_reversed. *)
+Theorem C14_centers_mean :
+  forall (g : grid) (ci : list nat) (a : nat),
+    wf_grid g -> mesh_dim g <= 3 -> inb (cshape_of (dims g)) ci -> a < gdim g ->
+    let n := flat (point_order g) (cshape_of (dims g)) ci in
+    n < length (cell_centers g) /\ n < length (node_centers g) /\
+    (nth a (nth n (cell_centers g) []) 0 == nth a (nth n (node_centers g) []) 0)%Q.
+Proof. exact centers_mean. Qed.
+
+(** The unstructured cast keeps points, cells and cell types, its data shape is the flat data size,
+    and the element at data multi-index [i] of the structured grid, flattened in the grid's order,
+    is located (data points of the cast grid; for cell data: means of the cell nodes) at the
+    coordinate the structured grid's data axes give for [i]. *)
+Theorem C14_unstructured_cast :
+  forall (g : grid),
+    wf_grid g -> mesh_dim g <= 3 ->
+    let u := to_unstructured g in
+    u_points u = points g /\ u_cells u = cells g /\ u_types u = cell_types g /\
+    u_data_shape u = [data_size g] /\
+    (forall i a, inb (data_shape g) i -> a < gdim g ->
+       (nth a (nth (flat (g_c g) (data_shape g) i) (u_data_points u) []) 0 == nth a (coord_at g i) 0)%Q).
+Proof. exact unstructured_cast. Qed.
+
+(** Memo state machine of RectilinearGrid: for every grid and every sequence of reads of
+    data_shape / data_size / data_points, location changes (valid or rejected) and copies, on any of
+    the objects created so far, every read returns the pure function of the object's current
+    grid record (whose location is the one set last). *)
+Theorem C14_location_current :
+  forall (g : grid) (ops : list mop), Forall read_ok (mrun true [fresh g] ops).
+Proof. exact location_current. Qed.
+
+(** ** Non-vacuity *)
+Definition ex_g : grid :=
+  mkgrid [[0#1; 1#1; 3#1]; [5#1; 7#1; 8#1; 12#1]; [2#1]]%Q [true; false; true] true true false 0 false.
+
+Example C14_index_coord_nonvacuous :
+  wf_grid ex_g /\ inb (data_shape ex_g) [0; 2; 1] /\
+  flat (g_c ex_g) (data_shape ex_g) [0; 2; 1] = 5 /\
+  nth 5 (data_points ex_g) [] = coord_at ex_g [0; 2; 1] /\
+  coord_at ex_g [0; 2; 1] = [(((1#1) + (3#1)) / 2)%Q; (((5#1) + (7#1)) / 2)%Q; 2#1]%Q.
+Proof.
+  split; [split; [reflexivity|repeat constructor]|].
+  split; [repeat constructor|]. split; [reflexivity|]. split; reflexivity.
+Qed.
+
+Example C14_cells_valid_nonvacuous :
+  inb (cshape_of [3; 1; 4]) [1; 0; 2] /\
+  nth (flat true (cshape_of [3; 1; 4]) [1; 0; 2]) (gen_cells [3; 1; 4] true) [] = [7; 11; 10; 6] /\
+  map (fun off => flat true [3; 1; 4] (addi [1; 0; 2] (embed [3; 1; 4] off))) (corners 2) = [7; 11; 10; 6].
+Proof. split; [repeat constructor|]. split; reflexivity. Qed.
+
+Example C14_centers_mean_nonvacuous :
+  mesh_dim ex_g = 2 /\ inb (cshape_of (dims ex_g)) [1; 2; 0] /\
+  nth (flat (point_order ex_g) (cshape_of (dims ex_g)) [1; 2; 0]) (cell_centers ex_g) [] =
+    [(((1#1) + (3#1)) / 2)%Q; (((7#1) + (5#1)) / 2)%Q; 2#1]%Q /\
+  Qeq_bool (nth 1 (nth (flat (point_order ex_g) (cshape_of (dims ex_g)) [1; 2; 0]) (node_centers ex_g) []) 0%Q) (6#1) = true.
+Proof. split; [reflexivity|]. split; [repeat constructor|]. split; reflexivity. Qed.
+
+Example C14_unstructured_cast_nonvacuous :
+  length (u_points (to_unstructured ex_g)) = 12 /\ u_data_shape (to_unstructured ex_g) = [6] /\
+  length (u_cells (to_unstructured ex_g)) = 6.
+Proof. repeat split. Qed.
+
+(** read, change the location, read again: the second read differs from the first *)
+Definition ex_ops : list mop := [MShape 0; MSize 0; MSet 0 true; MShape 0; MSize 0; MCopy 0; MSet 1 false; MSize 1].
+Example C14_location_current_nonvacuous :
+  map fst (mrun true [fresh ex_g] ex_ops) =
+  [RShape [1; 3; 2]; RSize 6; RSet true; RShape [1; 4; 3]; RSize 12; RCopied; RSet true; RSize 6].
+Proof. reflexivity. Qed.
+
+(** Finding F6 (repaired in the code): a setter that keeps the memo violates the statement. *)
+Example C14_location_current_without_reset_refuted :
+  ~ Forall read_ok (mrun false [fresh ex_g] [MShape 0; MSet 0 true; MShape 0]).
+Proof.
+  intros H. apply Forall_inv_tail in H. apply Forall_inv_tail in H. apply Forall_inv in H.
+  vm_compute in H. discriminate H.
+Qed.
+
+Print Assumptions C14_index_coord.
+Print Assumptions C14_cells_valid.
+Print Assumptions C14_centers_mean.
+Print Assumptions C14_unstructured_cast.
+Print Assumptions C14_location_current.
